@@ -341,6 +341,27 @@ def run_same_array_layers(rep, tier, rng):
                              case={"ops": ops, "call": call_op}, module="layers")
             else:
                 rep.validated()
+    # two DIFFERENT Arrays that carry the same name (derived quantities are unnamed): each layer shows its own values
+    a1 = osyris.Array(np.array([1.0, 2.0, 4.0, 8.0, 16.0, 32.0]), unit="K")
+    a2 = osyris.Array(np.array([3.0, 3.0, 5.0, 5.0, 7.0, 9.0]), unit="K")
+    for op in ("sum", "mean"):
+        rep.case(klass=("histogram2d-same-name", op))
+        d = None
+        try:
+            with contextlib.redirect_stdout(io.StringIO()):
+                p = osyris.histogram2d(x, y, Layer(a1), Layer(a2), resolution=4, xmin=0.0, xmax=4.0, ymin=0.0, ymax=4.0, plot=False, operation=op)
+            for li, arr in enumerate((a1, a2)):
+                tot = float(np.ma.filled(p.layers[li]["data"], 0.0).sum())
+                want = float(arr.values.sum()) - (0.5 * float(arr.values[0] + arr.values[1]) if op == "mean" else 0.0)
+                if abs(tot - want) > 1e-9:
+                    d = f"layers: layer {li + 1} of two unnamed Arrays adds up to {tot}, its own values give {want} ({op})"
+                    break
+        except Exception as e:
+            d = f"raises: {type(e).__name__}: {e}"
+        if d:
+            rep.mismatch({"module": "LayerOptions", "fn": "histogram2d", "field": "same-name-" + d.split(":")[0]}, f"two unnamed Arrays as layers: {d}", case={"op": op}, module="layers")
+        else:
+            rep.validated()
     # histogram1d with weights that hold an undefined value, at layer and at call level
     vals = osyris.Array(np.array([0.5, 1.5, 2.5, 3.5, 0.5, 1.5, 2.5, 3.5]), unit="m")
     for level in ("layer", "call"):
